@@ -312,14 +312,17 @@ def mintAwards (s : State) : Option State :=
       (send st1 st1.pool e.1 e.2).getD st1) s
     some { s1 with awards := [] }
 
-/-- `burnValidators`; `none` = panic (`mustGetValidator`) -/
+/-- `burnValidators`; `none` = panic (`mustGetValidator`, or a consensus power that does not fit an int64) -/
 def burnValidators (s : State) : Option State :=
   let r := s.burns.foldl (fun (st? : Option State) e =>
     match st? with
     | none => none
     | some st => match aget st.vals e.1 with
       | none => none
-      | some v => some (slash st e.1 st.height (if v.status == 2 then power v.tokens else 0) e.2)) (some s)
+      | some v =>
+        -- `ConsensusPower()` of a staked validator converts its power to an int64 and panics when it does not fit
+        if v.status == 2 && !isInt64 (power v.tokens) then none
+        else some (slash st e.1 st.height (if v.status == 2 then power v.tokens else 0) e.2)) (some s)
   r.map fun st => { st with burns := [] }
 
 def beginBlock (s : State) (time : Int) (proposer : Addr) (votes : List Vote) (evs : List Evidence) :
